@@ -149,10 +149,17 @@ func drawKeepAlive() *api.Duration {
 	case 3:
 		return &api.Duration{Duration: time.Duration(1+verifsim.Draw("ka-s", 20)) * time.Second}
 	case 4:
+		if c15NoInfiniteKeepAlive {
+			return nil
+		}
 		return &api.Duration{Duration: -1}
 	}
 	return nil
 }
+
+// c15NoInfiniteKeepAlive: the C02 stage checks that everything drains once the keep-alive
+// periods have elapsed, so its requests never ask for an unlimited one.
+var c15NoInfiniteKeepAlive bool
 
 func (cw *c15World) drawName() (string, *apiFamily) {
 	f := cw.fams[verifsim.Draw("fam", len(cw.fams))]
@@ -398,6 +405,7 @@ func runC15(t *testing.T, tape *verifsim.Tape, prop, tier string, keepLog bool) 
 		}
 		w := newAPIWorld(t, sim, prop, gpu, []int{0, 1, 2, 3, 1}[d("maxrunners", 5)], []int{0, 1, 4}[d("parallel", 3)], 512)
 		cw := &c15World{apiWorld: w}
+		c15NoInfiniteKeepAlive = prop == "C02"
 		w.script = cw.completion
 		w.onCloseInUse = func(s *simLlama, n int) {
 			verifsim.Probe("c01_http_monitor_armed")
@@ -460,7 +468,10 @@ func runC15(t *testing.T, tape *verifsim.Tape, prop, tier string, keepLog bool) 
 		}
 		cw.summarise(res)
 		if stop == verifsim.Idle || stop == verifsim.SimBudget {
-			res.Info["stuck_runs"]++ // liveness is C02's business, not reported here
+			res.Info["stuck_runs"]++ // liveness is C02's business (its HTTP stage, below)
+		}
+		if prop == "C02" && cw.setupErr == "" {
+			cw.checkC02(sim, stop)
 		}
 		w.teardown()
 	})
@@ -513,6 +524,43 @@ func getenvOr(k string) string {
 		return v
 	}
 	return "unset"
+}
+
+// checkC02 is the HTTP-level stage of C02: no client of this workload cancels a request, every
+// load finishes, so every request must be answered (a run that ends with nothing runnable, no
+// timer pending and clients still waiting has lost a reply), and once the keep-alive periods
+// (at most the default five minutes here) have elapsed every runner that was started has been
+// closed and GET /api/ps reports nothing. Controller only.
+func (cw *c15World) checkC02(sim *verifsim.Sim, stop verifsim.Stop) {
+	w := cw.apiWorld
+	switch stop {
+	case verifsim.Idle:
+		verifsim.Violate("C02", "no-reply", "http:no-reply:server-idle", fmt.Sprintf("%d of %d clients are still waiting for the response to a request that nobody cancelled, and nothing in the server is runnable and no timer is pending", cw.nClients-cw.done, cw.nClients))
+		return
+	case verifsim.CondTrue:
+	default:
+		verifsim.Probe("c02_http_run_out_of_budget")
+		return
+	}
+	sim.RunUntil(nil, 6*time.Minute, 200000)
+	if live := w.live(); len(live) > 0 {
+		verifsim.Violate("C02", "drain", "http:drain:runner-never-closed", fmt.Sprintf("all requests have been answered and more than the longest keep-alive period has elapsed, but %d of %d runners that were started have not been shut down (first: #%d for %s)", len(live), len(w.srvs), live[0].id, w.famOfPath(live[0].model)))
+		return
+	}
+	psDone := false
+	sim.Go("drain-ps", func() {
+		defer func() { psDone = true }()
+		r := cw.apiDo(context.Background(), "GET", "/api/ps", nil)
+		var pr api.ProcessResponse
+		if r.code != http.StatusOK || json.Unmarshal(r.body.Bytes(), &pr) != nil {
+			return
+		}
+		verifsim.Probe("c02_http_drain_checked")
+		if len(pr.Models) > 0 {
+			verifsim.Violate("C02", "drain", "http:drain:still-reported-loaded", fmt.Sprintf("all requests have been answered and more than the longest keep-alive period has elapsed, but GET /api/ps still reports %d loaded model(s) (first: %s)", len(pr.Models), pr.Models[0].Name))
+		}
+	})
+	sim.RunUntil(func() bool { return psDone }, time.Minute, 50000)
 }
 
 var c15Warm bool
